@@ -312,3 +312,41 @@ Section ChunkData.
     {| rst := st; rread := cd_read; rread_exact := read_exact_default true cd_read;
        rskip := cd_skip; rpos := cd_pos; rlen := cd_len |}.
 End ChunkData.
+
+(* ------------------------------------------------------------------------------------------------ *)
+(* A sparse virtual Read + Seek stream with the seek semantics of std::io::Cursor: [v_len] bytes (up to 2^64-1), a few
+   extents of real bytes over a zero background.  It exists so that skips of more than i64::MAX bytes can stay WITHIN
+   the stream (harness: VCur in harness/src/adapt.rs). *)
+Record vcur := { v_len : N; v_exts : list (N * bytes); v_pos : N }.
+
+Fixpoint vbyte (exts : list (N * bytes)) (off : N) : Byte.byte :=
+  match exts with
+  | [] => Byte.x00
+  | (o, l) :: r => if (o <=? off) && (off <? o + blen l) then nth (N.to_nat (off - o)) l Byte.x00 else vbyte r off
+  end.
+Fixpoint vread_bytes (exts : list (N * bytes)) (off : N) (n : nat) : bytes :=
+  match n with
+  | O => []
+  | Datatypes.S m => vbyte exts off :: vread_bytes exts (off + 1) m
+  end.
+
+Definition vmove (s : vcur) (p : N) : vcur := {| v_len := v_len s; v_exts := v_exts s; v_pos := p |}.
+
+Definition vcursor_read (k : N) (s : vcur) : res bytes * vcur :=
+  let n := N.min k (v_len s - v_pos s) in
+  (Ok (vread_bytes (v_exts s) (v_pos s) (N.to_nat n)), vmove s (v_pos s + n)).
+
+Definition vcursor_seek (max_seek : N) (sf : seekfrom) (s : vcur) : res N * vcur :=
+  match sf with
+  | SStart n => if max_seek <? n then (EIo EInvalidInput, s) else (Ok n, vmove s n)
+  | SCurrent d | SEnd d =>
+      let base := match sf with SEnd _ => v_len s | _ => v_pos s end in
+      let t := (Z.of_N base + d)%Z in
+      if ((0 <=? t)%Z && (t <? Z.of_N U64)%Z && (t <=? Z.of_N max_seek)%Z)%bool
+      then (Ok (Z.to_N t), vmove s (Z.to_N t))
+      else (EIo EInvalidInput, s)
+  end.
+
+Definition vcursor_seeker (max_seek : N) : seeker :=
+  {| sst := vcur; s_read := vcursor_read; s_read_exact := read_exact_default true vcursor_read;
+     s_seek := vcursor_seek max_seek; s_stream_position := fun s => (Ok (v_pos s), s) |}.
